@@ -288,9 +288,12 @@ where
                 let text = editor.text_mut();
 
                 let tokens = Tokens::new(text);
-                self.process_input::<C, _>(tokens, processor)?;
+                let result = self.process_input::<C, _>(tokens, processor);
 
+                // tokens are created in place, so editor content is not a valid input anymore
+                // and must be cleared even if processing failed
                 editor.clear();
+                result?;
 
                 self.writer.flush_str(self.prompt)?;
             }
